@@ -3,7 +3,7 @@
    length), independently of the crate's masks; c14_wire_layout ties gen_hdr to it. encap_ext: theorem
    c06_encap_ext in props/C13.v. *)
 Require Import GSE.model.Base GSE.model.Types GSE.model.Ext GSE.model.Encap
-  GSE.proofs.Tactics GSE.proofs.BaseLemmas GSE.proofs.HeaderLemmas GSE.proofs.EncapSpec GSE.proofs.EncapProps.
+  GSE.proofs.Tactics GSE.proofs.BaseLemmas GSE.proofs.HeaderLemmas GSE.proofs.EncapSpec GSE.proofs.EncapProps GSE.proofs.ExtSpec GSE.proofs.ExtTrip GSE.proofs.ExtProps.
 Open Scope N_scope.
 #[local] Opaque pkt_complete pkt_first pkt_end pkt_inter.
 
@@ -47,6 +47,35 @@ Proof.
       f_equal; [do 2 f_equal; lia|]. do 2 f_equal. f_equal. lia.
 Qed.
 
+(* encap_ext: same layout with the extension area between label and payload. chain_bytes exts final pt is
+   data(ext 0), id(ext 1), data(ext 1), ..., data(last ext), followed by the protocol type unless it is the id of
+   the final mandatory extension (pt < 0x100); the type field after the fragment fields holds id(ext 0).
+   The total length counts protocol type, label and PDU (as the receiver checks it), not the extension area. *)
+Theorem c06_encap_ext : forall crc s pdu fid pt lab buf exts s' buf' st, enc_wf s -> label_wf lab -> Forall ext_built exts ->
+  encap_ext crc s pdu fid pt lab buf exts = Ret (s', buf', inl st) ->
+  let n := st_len st in
+  let l := snd (check_reuse_hl s lab) in
+  let chain := chain_bytes exts (pt <? 256) pt in
+  n <= lenN buf /\ lenN buf' = lenN buf /\ dropN n buf' = dropN n buf /\ n <= 4097 /\
+  match st with
+  | Completed _ =>
+      takeN n buf' = be16 (3 * 16384 + lt_num (label_type l) * 4096 + (n - 2))
+                     ++ be16 (first_id exts pt) ++ label_bytes l ++ chain ++ pdu
+  | Fragmented _ c =>
+      takeN n buf' = be16 (2 * 16384 + lt_num (label_type l) * 4096 + (n - 2))
+                     ++ [fid] ++ be16 (2 + lenN (label_bytes l) + lenN pdu) ++ be16 (first_id exts pt) ++ label_bytes l
+                     ++ chain ++ takeN (cf_len c) pdu
+  end.
+Proof.
+  intros crc s pdu fid pt lab buf exts s' buf' st Hs Hw Hx H.
+  rewrite encap_ext_spec in H by (auto; revert Hx; apply Forall_impl; exact ext_built_wf). injection H as H.
+  pose proof (encap_ext_layout crc _ _ _ _ _ _ _ _ _ _ Hw H) as L. destruct st; exact L.
+Qed.
+Example c06_chain_example :
+  chain_bytes [ {| ext_id := 0x0233; ext_dat := D2 [1;2] |}; {| ext_id := 0x42; ext_dat := DMand [7;8;9] |} ] false 0x0800
+  = [1;2; 0x00;0x42; 7;8;9; 0x08;0x00].
+Proof. reflexivity. Qed.
+
 Theorem c06_encap_frag : forall pdu ctx buf buf' st,
   encap_frag pdu ctx buf = Ret (buf', inl st) ->
   let n := st_len st in
@@ -83,3 +112,4 @@ Qed.
 
 Print Assumptions c06_encap.
 Print Assumptions c06_encap_frag.
+Print Assumptions c06_encap_ext.
